@@ -47,6 +47,16 @@ def parseSlots (ws : List String) : Option (List Slot × List Tok) := do
   pure (xs.map (fun x => match x with | some (a, _) => Slot.attr a | none => Slot.redefining),
         xs.filterMap (fun x => x.map (·.2)))
 
+/-- the same with the pre-technical-corrigendum encoding: a redefining attribute carries a token of its own, `RD:<TOK>` -/
+def parseSlotsPre (ws : List String) : Option (List Slot × List Tok) := do
+  -- a token `-` = the parameter list ended before this entry (trailing entries only)
+  let xs ← ws.mapM (fun w => match w.splitOn ":" with
+    | ["RD", "-"] => some (Slot.redefining, (none : Option Tok))
+    | ["RD", t] => (parseTok t).map (fun t => (Slot.redefining, some t))
+    | [k, o, d, r, f, "-"] => (parseSlot (":".intercalate [k, o, d, r, f, "ST"])).map (fun (a, _) => (Slot.attr a, none))
+    | _ => (parseSlot w).map (fun (a, t) => (Slot.attr a, some t)))
+  pure (xs.map (·.1), xs.filterMap (·.2))
+
 def splitOnWord (sep : String) (ws : List String) : List (List String) :=
   let rec go : List String → List String → List (List String) → List (List String)
     | [], cur, acc => (cur.reverse :: acc).reverse
@@ -84,6 +94,19 @@ def handle (line : String) : String :=
     let (o, files) := StepModel.ModeGlue.parseArgs StepModel.ModeGlue.initial argv
     let b := fun (x : Bool) => if x then "1" else "0"
     s!"O strict={b o.strict} usage={b o.usage} version={b o.version} files={files.length}"
+  | "readpre" :: st :: "|" :: rest =>
+    -- internally mapped instances only: `S <slot>…` with `RD:<TOK>` words
+    match (if st = "1" then some true else if st = "0" then some false else none),
+          (splitOnWord "|" rest).mapM (fun g => match g with | "S" :: r => parseSlotsPre r | _ => none) with
+    | some strict, some insts =>
+      let results := insts.map (fun (es, ts) =>
+        let (s, vs) := loopReadTC false (fileStrictFor false strict) es ts
+        ((⟨s, false⟩ : InstResult), vs))
+      let e := fileSev (results.map (·.1))
+      let per := results.map (fun (r, vs) => s!"{r.sev.short}/{stName (nodeState r)}/" ++
+        String.join (vs.map (fun v => match v with | Val.null => "0" | _ => "1")))
+      s!"F sev={e.short} exit={p21readExit e} | " ++ " | ".intercalate per
+    | _, _ => "bad-op"
   | "read" :: st :: "|" :: rest =>
     match (if st = "1" then some true else if st = "0" then some false else none),
           (splitOnWord "|" rest).mapM parseInst with
